@@ -37,6 +37,31 @@ type env struct {
 	tmpdir   string
 	// filled by the mutation resolver
 	seen *seen
+	// hs mode: what reached CreateOperationContext; documents with a field without Definition seen by Exec
+	reached []reach
+	unval   int
+}
+
+// validated: every field / fragment spread of the operation carries the definition the validator attaches;
+// a document that skipped validation does not.
+func validated(set ast.SelectionSet) bool {
+	for _, sel := range set {
+		switch x := sel.(type) {
+		case *ast.Field:
+			if x.Definition == nil || x.ObjectDefinition == nil || !validated(x.SelectionSet) {
+				return false
+			}
+		case *ast.FragmentSpread:
+			if x.Definition == nil || !validated(x.Definition.SelectionSet) {
+				return false
+			}
+		case *ast.InlineFragment:
+			if x.ObjectDefinition == nil || !validated(x.SelectionSet) {
+				return false
+			}
+		}
+	}
+	return true
 }
 
 type upInfo struct {
@@ -169,6 +194,11 @@ func newServer(e *env, transports ...graphql.Transport) *handler.Server {
 	srv := handler.New(&graphql.ExecutableSchemaMock{
 		ExecFunc: func(ctx context.Context) graphql.ResponseHandler {
 			opCtx := graphql.GetOperationContext(ctx)
+			if !validated(opCtx.Operation.SelectionSet) {
+				mu.Lock()
+				e.unval++
+				mu.Unlock()
+			}
 			switch opCtx.Operation.Operation {
 			case ast.Mutation:
 				e.readUploads(opCtx.Variables)
